@@ -24,6 +24,7 @@ CLAIMED = {
  "C14": ("§6 C14", "Alias forwarding: each of the five module-level read functions called with every subset of its keyword arguments (distinguishable sentinels) hands exactly those values to the class method and returns its result. Restriction: DataFrame.from_json / ListOfDicts.from_json / ListOfDicts.read_csv with a column/key restriction equal read-everything-then-select for all ragged record shapes, requested orders and integer values within the bounds (json / csv / file layer stubbed by contract in the symbolic run, real in the replay)."),
  "C18": ("§6 C18", "GeoJSON.read on an arbitrary symbolic feature collection (ragged property sets, null values, null/Point geometry, extra top-level members; json and the file layer stubbed by contract): one row per feature, a column per property key, geometry objects unchanged, other members in metadata. GeoJSON.write: the hand-assembled text (captured as a template whose json.dumps blobs are valid by contract) parses as JSON with the same features and metadata, and every member name inserted verbatim must be a valid JSON string literal for ALL names (bounded symbolic string); outside the recorded known-finding region."),
  "C13": ("§6 C13", "ListOfDicts and JSON legs end to end (one record per row, one field per column, null iff missing, back-conversion with the same names, values, missing positions and dtype) for ALL cell values; from_pandas / from_arrow as units against an arbitrary foreign column (contract stub: to_numpy() + null mask) for ALL cell values and null positions incl. the first; the real pandas / pyarrow round trip is observed through witness replay only."),
+ "C19": ("§6 C19", "Routing of every dt extractor, replace (scalar and vector components), to_string/from_string and every regex function: the calendar / re functions are uninterpreted (same symbol in implementation and oracle, evaluated by Python's own datetime / re on concrete replays), so what is decided for ALL ticks, NaT positions, component values and string contents is: element i of the result is f(element i), missing exactly at NaT / '', scalar call == one-element call, .dt / .re proxies == module functions, quarter == ceil(month/3), from_string inverts to_string under the assumed strptime/strftime inverse."),
  "C05": ("§6 C05", "For every pair of frames within the bounds and ALL key and payload cells, the five joins agree with a nested-loop first-match reference (missing keys never match, renamed keys, empty sides) and do not raise."),
 }
 m = {"version": 1, "setup_cmd": "./bootstrap.sh",
